@@ -83,6 +83,30 @@ def reviewedBufCap : Nat := 4096
 def apkFile (gz : Bytes → Bytes) (sig : Option Bytes) (control data : Bytes) : Bytes :=
   (match sig with | some s => gz s | none => []) ++ gz control ++ gz data
 
+/-! ### archive/tar.Writer at block level -/
+
+/-- padding a body of `n` bytes needs to reach the next 512-byte boundary -/
+def blockPad (n : Nat) : Nat := (512 - n % 512) % 512
+
+/-- the writer's state: the writes it has issued to the underlying writer so far, and the padding it
+    still owes for the last member (written lazily by the next WriteHeader, Flush or Close) -/
+structure TarW where
+  writes : List Bytes := []
+  pad : Nat := 0
+deriving Repr
+
+/-- WriteHeader(hdr) followed by the complete body: owed padding first, then the header block(s)
+    (PAX/GNU extension headers included: always a whole number of blocks), then the data -/
+def TarW.member (t : TarW) (m : Bytes × Bytes) : TarW :=
+  { writes := t.writes ++ [zeros t.pad, m.1, m.2], pad := blockPad m.2.length }
+
+/-- the builder of a segment writes a list of members (header blocks, body) -/
+def tarBuild (ms : List (Bytes × Bytes)) : TarW := ms.foldl TarW.member {}
+
+/-- the complete tar stream of these members: bodies padded, end-of-archive marker appended -/
+def tarStream (ms : List (Bytes × Bytes)) : Bytes :=
+  (ms.flatMap (fun m => m.1 ++ m.2 ++ zeros (blockPad m.2.length))) ++ zeros 1024
+
 /-! ### member lists -/
 
 def debDataName (compression : Bytes) : Option Bytes :=
